@@ -57,9 +57,10 @@ impl<K, V> OrderedQueue<K, V> {
             return Err(Error::Stale { key, value });
         }
 
-        // Evict a record if we're full
+        // Evict a record if we're full, unless the key is already buffered (a merge or
+        // conflict does not need room)
         let mut evicted = None;
-        if self.map.len() >= self.limit {
+        if self.map.len() >= self.limit && !self.map.contains_key(&key) {
             let last_entry = self.map.last_entry().expect("limit must be greater than 0");
             if last_entry.key() > &key {
                 evicted = Some(last_entry.remove_entry());
